@@ -183,10 +183,30 @@ class StdoutProxy:
 
     @property
     def buffer(self):
-        raise AttributeError("buffer")
+        return _BinaryOut(self)
 
     def close(self):
         pass
+
+
+class _BinaryOut:
+    """sys.stdout.buffer of a simulated process."""
+
+    def __init__(self, text):
+        self._t = text
+
+    def write(self, b):
+        self._t.write(bytes(b).decode("utf-8", "surrogateescape"))
+        return len(b)
+
+    def flush(self):
+        self._t.flush()
+
+    def isatty(self):
+        return False
+
+    def writable(self):
+        return True
 
 
 class StdinProxy:
@@ -270,7 +290,18 @@ class ChildSeams:
             self.clock = d["clk"]
         a = d.get("a")
         if a == "sigint":
-            raise KeyboardInterrupt
+            import signal
+
+            h = signal.getsignal(signal.SIGINT)
+            if h is signal.default_int_handler or h is None:
+                raise KeyboardInterrupt
+            if h == signal.SIG_IGN:
+                return {"a": "ok"}
+            if h == signal.SIG_DFL:  # the program removed Python's handler: the kernel terminates it
+                self.tell({"p": self.proc, "op": "exit", "code": -2, "how": "killed-by-SIGINT"})
+                os._exit(0)
+            h(signal.SIGINT, sys._getframe(1))  # the program's own handler runs (and may raise)
+            return {"a": "ok"}
         if a == "err":
             if on_err is not None:
                 on_err(d)
@@ -473,8 +504,26 @@ class ChildSeams:
         # ---- clock
         import time as _time
 
+        real_time, real_mono = _time.time, _time.monotonic
         _time.time = lambda: S.clock
+        _time.time_ns = lambda: int(S.clock * 1e9)
         install_datetime_seam(lambda: S.clock)
+        # names bound by "from time import time" in scriptplan modules
+        for mn, mod in list(sys.modules.items()):
+            if mod is not None and (mn == "scriptplan" or mn.startswith("scriptplan.")):
+                for an, av in list(vars(mod).items()):
+                    if av is real_time:
+                        setattr(mod, an, _time.time)
+        # every other source of entropy a program could use for "unique" names
+        urng = random.Random(f"urandom:{nseed}")
+        os.urandom = lambda n: bytes(urng.getrandbits(8) for _ in range(n))
+        random.seed(f"random:{nseed}")
+        try:
+            import uuid
+
+            uuid.uuid4 = lambda: uuid.UUID(int=urng.getrandbits(128), version=4)
+        except Exception:
+            pass
 
 
 def install_datetime_seam(clock_fn):
@@ -523,13 +572,18 @@ def install_datetime_seam(clock_fn):
 
     import importlib
 
-    n = 0
     for modname in ("scriptplan.utils.time", "scriptplan.parser.macro_processor", "scriptplan.utils.message_handler"):
         try:
-            mod = importlib.import_module(modname)
+            importlib.import_module(modname)
         except Exception:
             continue
-        if getattr(mod, "datetime", None) is not None:
-            mod.datetime = SimDatetime
-            n += 1
+    n = 0
+    # every name in a scriptplan module that is bound to the real datetime class (from datetime import datetime)
+    for mn, mod in list(sys.modules.items()):
+        if mod is None or not (mn == "scriptplan" or mn.startswith("scriptplan.")):
+            continue
+        for an, av in list(vars(mod).items()):
+            if av is _real_datetime:
+                setattr(mod, an, SimDatetime)
+                n += 1
     return n
